@@ -18,14 +18,14 @@ func init() {
 			"(same-credit) every credit is intervalCredit(payer.LastSeen); (bigint-only) no machine-integer multiply/divide or Int64 narrowing in the billing package; " +
 			"(mul-before-div) the returned credit is a quotient whose dividend carries ELAPSED and PRICE and whose divisor is INTERVAL only; " +
 			"(lastseen-written) both drivers' UpdateNodePeers persist time.Now() as the node's LastSeen and connect registers time.Now(); " +
-			"(peer-ids) reported peer ids reach the store through Peers.IDs/EnodeID; (div-guard) every intervalCredit call is guarded by Interval > 0. Round 2: (lastseen-written:SetNode) each driver's SetNode writes the caller's record as a whole and never overwrites its LastSeen.",
+			"(peer-ids) reported peer ids reach the store through Peers.IDs/EnodeID; (div-guard) every intervalCredit call is guarded by Interval > 0. Round 2: (lastseen-written:SetNode) each driver's SetNode writes the caller's record as a whole and never overwrites its LastSeen. Round 5: (bigint-private) in-place big.Int methods only on owned values.",
 		NotDecided: []string{"not decided: the numeric identity floor(elapsed*price/interval), slicing invariance, the microsecond overlap between the store's and the manager's clock; all-or-nothing on failure is C01.atomic-transfer"},
 	}
 	Registry["C03"] = Spec{
 		Run: runC03,
 		Explanation: "Static canonical-predicate and must-pass-through rules for the minimum balance: (connect-operand, update-operand) every LowBalanceError is returned under the canonical relation deposit+credit < MinBalance, " +
 			"with the sum read from GetNodeBalance of the node (in OnUpdate: read past the debit's success edge) and reported as CurrentBalance; (unset-off) guarded by MinBalance != nil; " +
-			"(hosts-exempt) guarded by !IsHost; (cutoff) Update calls disconnectPeers(nodeID, active) on the LowBalanceError branch before returning, and disconnectPeers sends vipnode_disconnect(nodeID) to every peer found in the host registry and collects exactly that many results. Round 2: (wiring) runPool installs the configured minimum under no condition but != \"off\" and error gates; (balance-errors) every composed BalanceStore reports a failed source (failure edges and sentinel comparisons never reach a success return); guard rules also hold across a shared helper, judged per call site.",
+			"(hosts-exempt) guarded by !IsHost; (cutoff) Update calls disconnectPeers(nodeID, active) on the LowBalanceError branch before returning, and disconnectPeers sends vipnode_disconnect(nodeID) to every peer found in the host registry and collects exactly that many results. Round 2: (wiring) runPool installs the configured minimum under no condition but != \"off\" and error gates; (balance-errors) every composed BalanceStore reports a failed source (failure edges and sentinel comparisons never reach a success return); guard rules also hold across a shared helper, judged per call site. Round 5: the configured minimum is parsed without floating point; (bigint-private).",
 		NotDecided: []string{"not decided: threshold arithmetic on concrete balances; that hosts honour the disconnect call"},
 	}
 }
